@@ -77,7 +77,7 @@ func (p *PurityMatcher) Match(cx *layer4.Connection) (bool, error) {
 			p.AllocMax = alloc
 		}
 		if p.AllocLimit > 0 && alloc > p.AllocLimit {
-			p.E.S.Fail(p.Tag+"/allocation", p.Name, "matcher %s allocated %d bytes in one evaluation on %d visible bytes (limit %d = 32 x MaxMatchingBytes); first bytes % x",
+			p.E.S.Fail(p.Tag+"/allocation", p.Name, "matcher %s allocated %d bytes in one evaluation on %d visible bytes (limit %d = 64 x MaxMatchingBytes); first bytes % x",
 				p.Name, alloc, vis, p.AllocLimit, head(cx.MatchingBytes(), 24))
 		}
 	}
